@@ -45,6 +45,9 @@ func judgeC09(sc *BatchSc, x *batchExec, br batchRun, fail string) Verdict {
 	if fail != "" && !goroutinesRemain(fail) {
 		return bad("C09:bubble", "%s", fail)
 	}
+	if br.Rejected {
+		return ok(false, "prep-form-rejected")
+	}
 	if br.Panic != "" {
 		return bad("C09:panic", "%s", br.Panic)
 	}
